@@ -23,6 +23,7 @@ func main() {
 	out := flag.String("out", "", "output jsonl")
 	replay := flag.String("replay", "", "replay file (inputs)")
 	par := flag.Int("par", 8, "parallel runs")
+	nstrf := flag.Int("strf", 40, "number of generated strftime evaluations")
 	flag.Parse()
 	vbin := filepath.Join(os.Getenv("VERIF_BIN_DIR"), "nsq_to_file_verif")
 	bin := filepath.Join(os.Getenv("VERIF_BIN_DIR"), "nsq_to_file")
@@ -46,6 +47,29 @@ func main() {
 		}
 		for k := 0; k < *nb; k++ {
 			inputs = append(inputs, genBlack(rb, k))
+		}
+	}
+	// strftime evaluations: one process for all of them
+	var strfQs []strfIn
+	var rest []input
+	for _, in := range inputs {
+		if in.Kind == "strf" && in.Strf != nil {
+			strfQs = append(strfQs, *in.Strf)
+		} else {
+			rest = append(rest, in)
+		}
+	}
+	inputs = rest
+	if *replay == "" {
+		strfQs = genStrf(lib.NewRand(*seed+977), *nstrf)
+	}
+	if len(strfQs) > 0 {
+		cs, e := runStrf(vbin, strfQs)
+		if e != "" {
+			lib.Fatalf("%s", e)
+		}
+		for _, c := range cs {
+			o.Emit(c)
 		}
 	}
 	results := make([][]lib.Case, len(inputs))
